@@ -11,6 +11,7 @@ import (
 	"fmt"
 	"math/big"
 	"os"
+	"strings"
 
 	"github.com/gcash/bchd/bchec"
 	"github.com/gcash/bchd/chaincfg"
@@ -213,12 +214,14 @@ func encodeKey(key []byte, net *chaincfg.Params, compress bool, corr bool) strin
 	// scribbling on a returned serialisation, or flipping CompressPubKey between calls, must leave String and
 	// SerializePubKey functions of (key, net, current flag) only.
 	if inRange {
-		historyOnOneValue(w, key, net, compress, s, pub, replay)
+		historyOnOneValue(w, key, net, compress, s, pub, replay, corr)
 	}
 	return s
 }
 
-func historyOnOneValue(w *bchutil.WIF, key []byte, net *chaincfg.Params, compress bool, s string, pub []byte, base map[string]interface{}) {
+var histCases int
+
+func historyOnOneValue(w *bchutil.WIF, key []byte, net *chaincfg.Params, compress bool, s string, pub []byte, base map[string]interface{}, corr bool) {
 	replay := map[string]interface{}{}
 	for k, v := range base {
 		replay[k] = v
@@ -265,6 +268,49 @@ func historyOnOneValue(w *bchutil.WIF, key []byte, net *chaincfg.Params, compres
 			}
 		}
 		w.CompressPubKey = compress
+		// a longer history derived from the key (replayable): assignments of either value, String, SerializePubKey
+		// in any order; every returned slice is overwritten before the next call.  Each answer against the
+		// specification with the flag in force; the whole history goes to the Coq model (Hist case, wrun).
+		h := sha256d(append(append([]byte{}, key...), net.PrivateKeyID, byte(len(s))))
+		flag := compress
+		var ops, outs, names []string
+		bad := false
+		for i := 0; i < 9 && !bad; i++ {
+			switch h[i] % 5 {
+			case 0:
+				flag = true
+				w.CompressPubKey = true
+				ops, outs, names = append(ops, "SetFlag true"), append(outs, "[]"), append(names, "flag=true")
+			case 1:
+				flag = false
+				w.CompressPubKey = false
+				ops, outs, names = append(ops, "SetFlag false"), append(outs, "[]"), append(names, "flag=false")
+			case 2:
+				got := w.String()
+				ops, outs, names = append(ops, "Str"), append(outs, vh.CoqStr(got)), append(names, "String")
+				bad = got != specString(flag)
+			default:
+				got := w.SerializePubKey()
+				ops, outs, names = append(ops, "Ser"), append(outs, vh.CoqBytes(got)), append(names, "SerializePubKey")
+				bad = !bytes.Equal(got, specPub(flag))
+				for j := range got {
+					got[j] = byte(j) ^ h[31]
+				}
+			}
+		}
+		w.CompressPubKey = compress
+		if bad {
+			replay["steps"] = strings.Join(names, "; ")
+			replay["flag_now"] = flag
+			rep.Violate("C06:history", "in a history on one WIF value an answer is not that of (key, net, flag in force)", replay)
+		}
+		if limit := map[bool]int{false: 40, true: 160}[cfg.Thorough()]; corr && histCases < limit {
+			histCases++
+			P := refBaseMult(new(big.Int).SetBytes(key))
+			cases.Add(fmt.Sprintf("Hist %s %d %s [%s] %s %s [%s]", vh.CoqBytes(key), net.PrivateKeyID, vh.CoqBool(compress),
+				strings.Join(ops, "; "), P.x.String(), P.y.String(), strings.Join(outs, "; ")),
+				map[string]interface{}{"op": "history", "key": vh.Hex(key), "net_id": net.PrivateKeyID, "compress": compress, "steps": names})
+		}
 	}); p {
 		replay["panic"] = msg
 		rep.Violate("C06:panic", "String/SerializePubKey panicked in a history on one WIF value", replay)
@@ -676,9 +722,9 @@ func main() {
 
 	decodeStr("", "edge", !cfg.Search)
 	decodeStr("1", "edge", !cfg.Search)
-	decodeStr("5HueCGU8rMjxEXxiPuD5BDku4MkFqeZyd4dZ1jvhTVqvbTLvyTJ", "known", !cfg.Search)    // bitcoin wiki vector
-	decodeStr("KwdMAjGmerYanjeui5SHS7JkmpZvVipYvB2LJGU1ZxJwYvP98617", "known", !cfg.Search)   // compressed
-	decodeStr("5HpHagT65TZzG1PH3CSu63k8DbpvD8s5ip4nEB3kEsreAnchuDf", "known", !cfg.Search)    // scalar 1
+	decodeStr("5HueCGU8rMjxEXxiPuD5BDku4MkFqeZyd4dZ1jvhTVqvbTLvyTJ", "known", !cfg.Search)  // bitcoin wiki vector
+	decodeStr("KwdMAjGmerYanjeui5SHS7JkmpZvVipYvB2LJGU1ZxJwYvP98617", "known", !cfg.Search) // compressed
+	decodeStr("5HpHagT65TZzG1PH3CSu63k8DbpvD8s5ip4nEB3kEsreAnchuDf", "known", !cfg.Search)  // scalar 1
 
 	// NewWIF(nil net) is an error, not a panic
 	if p, msg := vh.Catch(func() {
